@@ -768,64 +768,136 @@ def rule_O2(ctx) -> None:
 # O3 access gate
 
 
+def _selection_table_never_none(mod) -> bool:
+    """every whole-object write of `_group_current` in the module stores a dict (a display, dict(...), a comprehension, or a
+    local only ever bound to those): a successful raw read of it is never None"""
+    def dictish(v: ast.AST, fn: ast.AST, depth: int = 0) -> bool:
+        if isinstance(v, (ast.Dict, ast.DictComp)):
+            return True
+        if isinstance(v, ast.Call) and isinstance(v.func, ast.Name) and v.func.id in ("dict", "defaultdict", "OrderedDict"):
+            return True
+        if isinstance(v, ast.Call) and isinstance(v.func, ast.Attribute) and v.func.attr == "copy":
+            return True
+        if isinstance(v, ast.Name) and depth < 3:
+            binds = [a for a in ast.walk(fn) if isinstance(a, (ast.Assign, ast.AnnAssign)) and any(
+                isinstance(t, ast.Name) and t.id == v.id for t in (a.targets if isinstance(a, ast.Assign) else [a.target]))]
+            return bool(binds) and all(a.value is not None and dictish(a.value, fn, depth + 1) for a in binds)
+        return False
+
+    found = 0
+    for q, fn in mod.functions():
+        for n in ast.walk(fn):
+            vals = []
+            if isinstance(n, ast.Assign):
+                for t in n.targets:
+                    if isinstance(t, ast.Attribute) and t.attr == "_group_current":
+                        vals.append(n.value)
+                    if isinstance(t, ast.Subscript) and isinstance(t.value, ast.Attribute) and t.value.attr == "__dict__" and isinstance(t.slice, ast.Constant) \
+                            and t.slice.value == "_group_current":
+                        vals.append(n.value)
+            elif isinstance(n, ast.Call):
+                f = ast.unparse(n.func)
+                if f.endswith("__setattr__") or f == "setattr":
+                    cs = [a for a in n.args if isinstance(a, ast.Constant)]
+                    if cs and cs[0].value == "_group_current":
+                        vals.append(n.args[-1])
+                if f.endswith("__dict__.update"):
+                    vals += [k.value for k in n.keywords if k.arg == "_group_current"]
+                    if any(k.arg is None for k in n.keywords) or n.args:
+                        return False
+            for v in vals:
+                found += 1
+                if not dictish(v, fn):
+                    return False
+    return found > 0
+
+
 def rule_O3(ctx) -> None:
+    """the oneof gate of __getattribute__, decided on the paths of the function: a value is returned for a oneof member only
+    after the group's current member was compared with the requested name (and found equal); the unequal outcome raises
+    AttributeError before anything is stored; only the bootstrap names and the not-yet-initialised object skip the gate"""
     mod = ctx.repo.mod(M_INIT)
     fn = mod.func("Message.__getattribute__")
-    g = CFG(fn, implicit_exc=False)
     name_p = fn.args.args[1].arg
-    # raw reads of the requested attribute
-    reads = [nd for nd in g.nodes if nd.stmt is not None and nd.kind == "stmt" and any(
-        isinstance(c, ast.Call) and ast.unparse(c.func) in ("super().__getattribute__", "object.__getattribute__") and c.args and
-        isinstance(c.args[-1], ast.Name) and c.args[-1].id == name_p for c in own_nodes(nd.stmt))]
-    if not reads:
-        raise AnalysisError("__getattribute__: raw read of the requested attribute not found")
-    gates = [nd for nd in g.nodes if nd.kind == "test" and isinstance(nd.stmt, ast.If) and "group_current" in ast.unparse(nd.stmt.test)
-             and any(isinstance(x, ast.Raise) for b in nd.stmt.body for x in ast.walk(b))]
-    if not gates:
-        ctx.refuted("O3", "__getattribute__:oneof-gate", "absent", mod.loc(fn), "no test against the group's current member raising AttributeError", "m = M(a=1); m.b")
-        return
-    gate = gates[0]
-    raises_attr = all("AttributeError" in ast.unparse(x.exc) for b in gate.stmt.body for x in ast.walk(b) if isinstance(x, ast.Raise) and x.exc is not None)
-    # the gate precedes the raw read and every return of a value: no return/raw read reachable from entry on a path that
-    # skips the gate, except through the enumerated bootstrap exits (no _group_current yet; dunder names)
-    paths = Interp(mod).run(fn)
+    NAME = N(name_p)
+    paths = Interp(mod, fork_ifexp=True).run(fn)
     ctx.count(len(paths))
-    bypass = []
+    ctx.analysed("Message.__getattribute__")
+
+    def gate_atom(k):
+        # <current member of the group> ==/!= name : one side the requested name, the other a lookup keyed by the group
+        if k[0] != "op" or k[1] not in ("==", "!=") or len(k) != 4:
+            return None
+        for x, y in ((k[2], k[3]), (k[3], k[2])):
+            if x == NAME and y[0] in ("sub", "call") and "oneof_group_by_field" in show(y):
+                return k[1]
+        return None
+
+    bypass, wrong_exc, stores_first = [], [], []
     boot_names: Set[str] = set()
+    n_gate_raise = 0
+    table_is_dict = _selection_table_never_none(mod)
     for p in paths:
-        if p.outcome != "return":
-            continue
-        gate_atoms = [k for k in p.valuation if "group_current" in show(k) and k[0] == "op" and k[1] in ("==", "not")]
-        decided_gate = any(("[" in show(k) and "==" in show(k)) for k in p.valuation)
-        is_member = [v for k, v in p.valuation.items() if k[0] == "op" and k[1] == "is" and "oneof_group_by_field" in show(k)]
-        boot = any(k[0] == "raises" and v for k, v in p.valuation.items()) or any(
-            k[0] == "op" and k[1] == "in" and k[2] == N(name_p) and v for k, v in p.valuation.items())
-        for k, v in p.valuation.items():
-            if k[0] == "op" and k[1] == "in" and k[2] == N(name_p) and k[3][0] in ("c", "set"):
-                boot_names |= set(k[3][1]) if k[3][0] == "c" else {x[1] for x in k[3][1]}
+        val = p.valuation
+        boot = any(k[0] == "raises" and v for k, v in val.items())
+        if table_is_dict and any(k[0] == "op" and k[1] in ("is", "is not") and k[-1] == C(None) and "'_group_current'" in show(k[2]) and k[2][0] == "call"
+                                 and bool(v) == (k[1] == "is") for k, v in val.items()):
+            continue        # infeasible: the selection table, once readable, is a dict
+        for k, v in val.items():
+            if k[0] == "op" and k[1] == "in" and k[2] == NAME and k[3][0] in ("c", "set", "tuple"):
+                names = set(k[3][1]) if k[3][0] == "c" else {x[1] for x in k[3][1] if x[0] == "c"}
+                boot_names |= names
+                boot = boot or bool(v)
+            elif k[0] == "op" and k[1] == "not in" and k[2] == NAME and k[3][0] in ("c", "set", "tuple"):
+                names = set(k[3][1]) if k[3][0] == "c" else {x[1] for x in k[3][1] if x[0] == "c"}
+                boot_names |= names
+                boot = boot or not v
+            elif k[0] == "op" and k[1] in ("==", "!=") and len(k) == 4 and NAME in (k[2], k[3]):
+                other = k[3] if k[2] == NAME else k[2]
+                if other[0] == "c" and isinstance(other[1], str):
+                    boot_names.add(other[1])
+                    boot = boot or (bool(v) == (k[1] == "=="))
         if boot:
             continue
-        if is_member == [False] and not decided_gate:
-            # group is not None (the attribute is a oneof member) but the current-member comparison was not evaluated
-            bypass.append(p)
-    dom = g.dominators(labels=normal_edge)
-    order_ok = True
-    for r in reads:
-        # the raw read of the value happens after the gate on every non-bootstrap path: the gate's enclosing try/else precedes it
-        if gate.id not in g.reachable([g.entry.id], avoid={r.id}, labels=normal_edge):
-            order_ok = False
+        selected = None
+        for k, v in val.items():
+            g = gate_atom(k)
+            if g is not None:
+                selected = bool(v) == (g == "==")
+        non_member = any(("oneof_group_by_field" in show(k) and gate_atom(k) is None) and (
+            (k[0] == "op" and k[1] == "is" and k[-1] == C(None) and v) or (k[0] == "op" and k[1] == "is not" and k[-1] == C(None) and not v)
+            or (k[0] == "op" and k[1] == "in" and not v) or (k[0] == "op" and k[1] == "not in" and v)
+            or (k[0] not in ("op",) and not v)) for k, v in val.items())
+        if p.outcome == "return":
+            if not non_member and selected is not True:
+                bypass.append(p)
+        if selected is False:
+            if p.outcome != "raise":
+                if p.outcome != "return":
+                    bypass.append(p)
+                continue
+            n_gate_raise += 1
+            exc = p.value
+            cname = dotted(exc[1]) if exc is not None and exc[0] == "call" else (dotted(exc) if exc is not None else "")
+            if cname != "AttributeError":
+                wrong_exc.append(cname or "?")
+            if any(e.kind == "store" or (e.kind == "call" and "__setattr__" in show(e.data)) for e in p.events):
+                stores_first.append(p)
     extra = boot_names - {"__class__", "_betterproto"}
-    if not raises_attr:
-        ctx.refuted("O3", "__getattribute__:oneof-gate", "wrong-exception", mod.loc(gate.stmt), "the gate does not raise AttributeError (dump/to_dict rely on that class)")
-    elif bypass or not order_ok:
-        ctx.refuted("O3", "__getattribute__:oneof-gate", "bypass", mod.loc(fn),
-                    "a value can be returned for a oneof member without comparing it with the group's current member"
-                    + (": " + val_text(bypass[0].valuation) if bypass else " (raw read precedes the gate)"),
+    nm = "__getattribute__:oneof-gate"
+    if bypass:
+        ctx.refuted("O3", nm, "bypass", mod.loc(fn), "a value can be returned for a oneof member without comparing it with the group's current member: " + val_text(bypass[0].valuation),
                     "M(a=1, b='x'): both members readable / emitted")
+    elif n_gate_raise == 0:
+        ctx.refuted("O3", nm, "absent", mod.loc(fn), "no path compares the group's current member with the requested name and raises", "m = M(a=1); m.b")
+    elif wrong_exc:
+        ctx.refuted("O3", nm, "wrong-exception", mod.loc(fn), f"reading an unselected member raises {wrong_exc[0]}, not AttributeError (dump/to_dict/hasattr rely on that class)")
+    elif stores_first:
+        ctx.refuted("O3", nm, "stores-before-gate", mod.loc(fn), "the instance is written before the gate rejects the read of an unselected member: " + val_text(stores_first[0].valuation))
     elif extra:
-        ctx.refuted("O3", "__getattribute__:oneof-gate", "exempt:" + ",".join(sorted(extra)), mod.loc(fn), f"names {sorted(extra)} are exempt from the oneof gate besides the bootstrap names")
+        ctx.refuted("O3", nm, "exempt:" + ",".join(sorted(extra)), mod.loc(fn), f"names {sorted(extra)} are exempt from the oneof gate besides the bootstrap names")
     else:
-        ctx.proved("O3", "__getattribute__:oneof-gate", mod.loc(fn), f"bootstrap exemptions {sorted(boot_names)}")
+        ctx.proved("O3", nm, mod.loc(fn), f"{len(paths)} paths, {n_gate_raise} rejecting; bootstrap exemptions {sorted(boot_names)}")
 
 
 # ---------------------------------------------------------------------------
